@@ -363,6 +363,61 @@ COVA = T(('type', 'i'), ('param', 'd'), ('ranges', Lst('d')), ('rotMat', Lst('d'
 MODEL = T(('ndim', 'i'), ('nvar', 'i'), ('field', 'd'), ('covs', Lst(COVA)), ('drifts', Lst('s')), ('means', Lst('d')), ('covar0', Lst(Lst('d'))))
 XMODEL = T(('~value', Lst('d')), ('~angles', Lst(Lst('d'))))
 
+
+# ---- classes without a model: dump / reload / dump on the implementation, printed text, record traces
+def gq(rng, lo=-64, hi=64, den=64): return D(Fraction(rng.randint(lo, hi), den))
+def gen_dbline(rng, quick): return [rng.choice([1, 2, 3]), rng.choice([1, 2, 4]), rng.choice([1, 3, 5]), rng.randint(1, 10 ** 5)], ''
+def gen_dbgrapho(rng, quick):
+    n = rng.choice([2, 4, 7])
+    arcs = []; seen = set()
+    for _ in range(rng.randint(1, 2 * n)):
+        i, j = rng.randrange(n), rng.randrange(n)
+        if i != j and (i, j) not in seen: seen.add((i, j)); arcs.append([i, j, gq(rng, 1, 64)])
+    if not arcs: arcs = [[0, 1, gq(rng, 1, 64)]]
+    return [n, [gq(rng) for _ in range(n)], [gq(rng) for _ in range(n)], [D(gdbl(rng, na=True, mag=False)) for _ in range(n)], arcs], 'n%d' % n
+def lognormal(rng, n): return [D(Fraction(round(rng.lognormvariate(0, 1) * 64) + 1, 64)) for _ in range(n)]
+def gen_anamemp(rng, quick):
+    return [rng.choice([10, 30, 100]), [] if rng.random() < .6 else D(Fraction(1, 8)), rng.random() < .4, rng.random() < .6, lognormal(rng, rng.choice([20, 60]))], ''
+def gen_anamdd(rng, quick):
+    n = rng.choice([1, 2, 3, 5]); zc = sorted(set(Fraction(rng.randint(1, 200), 16) for _ in range(n))); n = len(zc)
+    return [D(Fraction(rng.choice([8, 12, 16]), 8)), D(Fraction(rng.choice([0, 2, 4, 7]), 8)), [D(z) for z in zc],
+            [gq(rng, 0, 64) for _ in range((n + 1) * 6)], [gq(rng) for _ in range(n * n)], [gq(rng) for _ in range(n * n)]], 'ncut%d' % n
+def gen_anamir(rng, quick):
+    n = rng.choice([1, 2, 3, 5]); zc = sorted(set(Fraction(rng.randint(1, 200), 16) for _ in range(n)))
+    return [D(Fraction(rng.choice([0, 4, 7, 8]), 8)), [D(z) for z in zc], lognormal(rng, rng.choice([30, 80]))], 'ncut%d' % len(zc)
+def gen_meshturbo(rng, quick):
+    ndim = rng.choice([1, 2, 2, 3]); nx = [rng.choice([2, 3, 4]) for _ in range(ndim)]
+    ang = [D(Fraction(0))] * ndim if ndim == 1 or rng.random() < .5 else [D(Fraction(rng.choice([30, 45, 12.5])))] + [D(Fraction(0))] * (ndim - 1)
+    return [nx, [D(gdbl(rng, pos=True, mag=False)) for _ in range(ndim)], [D(gdbl(rng, mag=False)) for _ in range(ndim)], ang, rng.random() < .5], 'ndim%d' % ndim
+def gen_meshstd(rng, quick):
+    if rng.random() < .6:
+        k = rng.choice([1, 2, 3]); ap = []; me = []
+        for i in range(k + 1):
+            ap += [D(Fraction(i)), D(Fraction(0)), D(Fraction(i)), D(Fraction(1) + Fraction(rng.randint(0, 8), 16))]
+        for i in range(k):
+            a, b, c, d = 2 * i + 1, 2 * i + 2, 2 * i + 3, 2 * i + 4
+            me += [a, b, c, b, c, d]
+        return [2, ap, me], '2d'
+    ap = [D(Fraction(x)) for p in [(0, 0, 0), (1, 0, 0), (0, 1, 0), (0, 0, 1), (1, 1, 1)] for x in p]
+    return [3, ap, [1, 2, 3, 4, 2, 3, 4, 5]], '3d'
+RULES = [['S', 'F1', 'T', 'F2', 'S', 'F3', 'F4'], ['S', 'F1', 'F2'], ['T', 'F1', 'F2'], ['S', 'S', 'F1', 'F2', 'F3'], ['S', 'T', 'F1', 'F2', 'T', 'F3', 'F4']]
+def gen_rule(rng, quick): return [[S(x) for x in rng.choice(RULES)], D(Fraction(rng.choice([0, 0, 4, -3, 7]), 8))], ''
+def gen_ruleshift(rng, quick): return [[S(x) for x in rng.choice([['S', 'S', 'S', 'F1', 'F2', 'F3', 'F4'], ['S', 'F1', 'F2']])], [gq(rng, 1, 64), gq(rng, 0, 64)] + ([gq(rng)] if rng.random() < .3 else [])], ''
+def gen_ruleshadow(rng, quick): return [gq(rng, 1, 64), gq(rng, 1, 128), gq(rng, -128, -1), [gq(rng, 1, 64), gq(rng, 0, 64)]], ''
+def gen_faults(rng, quick):
+    out = []
+    for _ in range(rng.choice([0, 1, 2, 4])):
+        n = rng.choice([2, 3, 6]); out.append([[D(gdbl(rng, mag=False)) for _ in range(n)], [D(gdbl(rng, mag=False)) for _ in range(n)]])
+    return out, 'n%d' % len(out)
+def gen_frac(rng, quick):
+    nf = rng.choice([0, 1, 2, 3])
+    fams = [[gq(rng, 0, 90 * 64), gq(rng, 0, 1280), gq(rng, 1, 64), gq(rng, 0, 128), gq(rng, 0, 64), gq(rng, 0, 64), gq(rng, 0, 64), gq(rng, 0, 256), gq(rng, 0, 256), gq(rng, 1, 640)] for _ in range(nf)]
+    faults = [[gq(rng, 0, 6400), gq(rng, 0, 5760), [[gq(rng, 0, 128), gq(rng, 0, 128), gq(rng, 1, 1280), gq(rng, 1, 1280)] for _ in range(nf)]] for _ in range(rng.choice([0, 1, 2]))]
+    return [gq(rng, 64, 6400), gq(rng, 64, 6400), gq(rng, 0, 64), gq(rng, 0, 64), gq(rng, 0, 1280), gq(rng, 0, 640), fams, faults], 'nfam%d' % nf
+def gen_neighimage(rng, quick):
+    ndim = rng.choice([1, 2, 2, 3]); return [ndim, [rng.choice([1, 2, 3, 10]) for _ in range(ndim)], rng.choice([0, 1, 3])], 'ndim%d' % ndim
+TEXT = T(('~text', 's'))
+
 HERMITE = T(('azmin', 'd'), ('azmax', 'd'), ('aymin', 'd'), ('aymax', 'd'), ('pzmin', 'd'), ('pzmax', 'd'), ('pymin', 'd'), ('pymax', 'd'),
             ('mean', 'd'), ('variance', 'd'), ('rCoef', 'd'), ('psiHn', Lst('d')))
 CLASSES = [
@@ -381,6 +436,19 @@ CLASSES = [
     Cls(12, 'Vario', VARIO, XVARIO, gen_vario),
     Cls(13, 'Model', MODEL, XMODEL, gen_model),
     Cls(9, 'AnamHermite', HERMITE, T(('flagBound', 'b'), ('~psiHns', Lst('d')), ('~rawValue', Lst('d'))), gen_hermite),
+    Cls(20, 'DbLine', T(), TEXT, gen_dbline, modelled=False),
+    Cls(21, 'DbGraphO', T(), TEXT, gen_dbgrapho, modelled=False),
+    Cls(22, 'AnamEmpirical', T(), TEXT, gen_anamemp, modelled=False),
+    Cls(23, 'AnamDiscreteDD', T(), TEXT, gen_anamdd, modelled=False),
+    Cls(24, 'AnamDiscreteIR', T(), TEXT, gen_anamir, modelled=False),
+    Cls(25, 'MeshETurbo', T(), TEXT, gen_meshturbo, modelled=False),
+    Cls(26, 'MeshEStandard', T(), TEXT, gen_meshstd, modelled=False),
+    Cls(27, 'Rule', T(), TEXT, gen_rule, modelled=False),
+    Cls(28, 'RuleShift', T(), TEXT, gen_ruleshift, modelled=False),
+    Cls(29, 'RuleShadow', T(), TEXT, gen_ruleshadow, modelled=False),
+    Cls(30, 'Faults', T(), TEXT, gen_faults, modelled=False),
+    Cls(31, 'FracEnviron', T(), TEXT, gen_frac, modelled=False),
+    Cls(32, 'NeighImage', T(), TEXT, gen_neighimage, modelled=False),
 ]
 BYID = {c.cid: c for c in CLASSES}
 
@@ -478,7 +546,7 @@ def main_part(ctx, quick, rng, runner, exe, env):
     for c in load_corpus(ctx):
         if c[0] == 1 and c[1] in BYID: cases.append(c); tags.append('corpus')
     for cls in CLASSES:
-        for _ in range(per):
+        for _ in range(per if cls.modelled else max(6, per // 3)):
             rec, tag = cls.gen(rng, quick)
             cases.append([1, cls.cid, rec]); tags.append(tag)
             ctx.dist('%s:%s' % (cls.name, tag))
